@@ -198,3 +198,31 @@ P("C16",
      "UDP tracker connection where the owner of the pending connect request is stopped at a generated time: another announce must follow within the first back-off bound (7.5 s + 0.7 s slack)",
      Q(8, 8, 900), T(160, 16), shrinktime="1s"),
   ])
+
+P("C13",
+  level_text="Bounded random exploration of the magnet clause: generated links (hex / base32 hashes, names of arbitrary bytes, 0..5 tiers of 1..3 trackers, peer "
+             "addresses incl. bracketed IPv6) are exported with Magnet.String and parsed back (same hash, name, peers, and the same multiset of tiers each compared as a set), "
+             "and links written the way other clients write them (percent-encoding every byte, explicit tier indexes, unrelated parameters) are parsed and compared with the generator's ground truth. "
+             "The metadata-adoption clauses are decided by the session-level unit when listed.",
+  level_note="Trusted: the generator's ground truth and its percent-encoder. Order between tiers is not asserted for exported links (the statement says 'each tier as a set'; "
+             "single-tracker tiers are written with the index-less parameter). Lower-case base32 hashes may be rejected (labelled, not a violation).",
+  technique="property-based testing (rapid): round trip + differential against generator ground truth",
+  rule="non-trivial = >=2 tiers with a multi-tracker tier, or a name together with peers; distinct = distinct case",
+  assumptions=[],
+  units=[
+   U("c13.magnet", "c13", "TestMagnet", "magnet String/New round trip and foreign-link parsing", Q(20000, 4), T(2000000), min_nontrivial_frac=0.2),
+  ])
+
+P("C14",
+  level_text="Bounded random exploration of the resume-record clause: histories of full writes, partial updates (info, bitfield, started flag, stop-after-* handling, "
+             "complete-command flag), reads and close/reopen of a real bbolt file, for several torrent ids, compared field by field with a model; every field value is generated "
+             "(arbitrary bytes for hashes/info/bitfield/name, 63-bit counters, nanosecond durations, time zones, every flag, versions). The registry/port clauses are decided by the "
+             "session-level unit when listed.",
+  level_note="Trusted: the model. Times are compared as instants at the stored one-second resolution; nil and empty lists are identified. "
+             "Open finding C14-invalid-utf8-in-string-lists is excluded by construction (strings in the three JSON-encoded lists are drawn valid UTF-8) and replayed from its pinned reproducer.",
+  technique="property-based testing (rapid): model-based stateful testing of the resume store (write/partial update/reopen/read)",
+  rule="1..14 ops + final reopen and read of every id; non-trivial = >=1 reopen with >=1 torrent stored; distinct = distinct history",
+  assumptions=["bbolt opened with NoSync for speed: durability is C05's subject, not this unit's"],
+  units=[
+   U("c14.spec", "c14", "TestSpec", "Write/partial update/reopen/Read == model for every field", Q(6000, 4), T(600000), min_nontrivial_frac=0.4),
+  ])
